@@ -33,6 +33,8 @@ type emitter struct {
 	cfg     *lib.Config
 	files   []*lib.CasesFile
 	radix   *lib.CasesFile
+	share   []*lib.CasesFile // values with aliasing: lvalue terms, format_value_g
+	nShare  int
 	failing int
 	perFile int
 }
@@ -301,6 +303,25 @@ func (e *emitter) add(v Val, s Spec, o Obs) {
 	cf.Add(term, fcase{Kind: "format", V: v, S: s})
 }
 
+// addShared: a value in which an instance occurs at several positions, with the identities, for the
+// model of the recursion guard (format_value_g); capped.
+func (e *emitter) addShared(v Val, s Spec, o Obs) {
+	limit := 600
+	if e.cfg.Thorough() {
+		limit = 3000
+	}
+	if e.nShare >= limit {
+		return
+	}
+	if len(e.share) == 0 || len(e.share[len(e.share)-1].Cases) >= 150 {
+		e.share = append(e.share, &lib.CasesFile{Imports: []string{"Model.Base", "Model.Format", "Model.FormatShare", "Corr.CorrC20"}, Typ: "scase",
+			Obligations: map[string]string{"share_model": "share_mismatches cases"}})
+	}
+	e.nShare++
+	term := fmt.Sprintf("mkSCase (%s) (%s) %s (%s)", v.lgallina(), s.gallina(), buildOracle(v, s).gallina(), o.gallina())
+	e.share[len(e.share)-1].Add(term, fcase{Kind: "format", V: v, S: s})
+}
+
 func (e *emitter) addRadix(c radixCase, text string, back int64, errText string) {
 	if len(e.radix.Cases) >= 1000 && !e.cfg.Thorough() || len(e.radix.Cases) >= 8000 {
 		return
@@ -345,6 +366,9 @@ func (e *emitter) flush(res *lib.Result) {
 	}
 	if len(e.radix.Cases) > 0 {
 		res.CorrFiles = append(res.CorrFiles, e.radix.WriteTo(e.cfg.Out, "cases_radix"))
+	}
+	for i, cf := range e.share {
+		res.CorrFiles = append(res.CorrFiles, cf.WriteTo(e.cfg.Out, fmt.Sprintf("cases_share_%d", i)))
 	}
 }
 
